@@ -8,6 +8,21 @@ use syn::*;
 pub struct Var {
     pub coq: String,
     pub ty: Ty,
+    /// a `&mut` reference to one of several places of a local, selected by a match (`let r = match side { A => &mut s.x, B => &mut s.y }`)
+    pub alias: Option<Alias>,
+}
+
+#[derive(Clone, Debug)]
+pub struct Alias {
+    /// the Coq scrutinee and the Coq patterns of the selecting match (a single arm with pattern `_` for a plain `&mut place`)
+    pub scrut: String,
+    pub arms: Vec<(String, Vec<Member>)>,
+    /// the local variable all places are rooted in
+    pub root: String,
+}
+
+pub fn var(coq: String, ty: Ty) -> Var {
+    Var { coq, ty, alias: None }
 }
 
 #[derive(Clone, Default, Debug)]
@@ -46,6 +61,32 @@ pub struct Tr<'a> {
     pub generic_tys: BTreeSet<String>,
     /// generic parameters fixed by the monomorphic instance this impl is translated for
     pub subst: BTreeMap<String, Ty>,
+    /// this function is translated with a leading fuel parameter and an `option` result
+    pub fuel: bool,
+    /// set when a loop / a call of a fuelled function is met while `fuel` is false (the caller retries with fuel)
+    pub needs_fuel: bool,
+    /// the fuel variable in scope
+    pub fuel_var: String,
+    /// names of fuelled functions (for the syntactic effect analysis)
+    pub fuel_names: BTreeSet<String>,
+    /// names of functions with `&mut` parameters
+    pub mutarg_names: BTreeSet<String>,
+    /// Rust names of this function's `&mut` parameters, in order
+    pub mut_params: Vec<String>,
+    /// Coq type of the function result (without the option of fuelled functions)
+    pub ret_coq: String,
+    /// enclosing loops: (continue expression, break placeholder)
+    pub loops: Vec<(String, String)>,
+    /// roots assigned anywhere in the function body
+    pub fn_assigned: BTreeSet<String>,
+    /// the file the translated function is in (tie-break for type names)
+    pub cur_file: String,
+    /// Coq name of the function being translated, numbering and text of its loop Fixpoints
+    pub fn_coq: String,
+    pub loop_counter: usize,
+    pub aux_defs: Vec<String>,
+    /// type arguments of the turbofish of the call being translated (for callees with `assoc_params`)
+    pub turbofish_types: Option<Vec<String>>,
 }
 
 pub fn lit(n: i128) -> String {
@@ -110,7 +151,7 @@ pub fn unsupported<T: syn::spanned::Spanned>(x: &T, what: &str) -> String {
 }
 
 /// Rust type -> Ty.  `adts`: the configured struct/enum names; `generics`: type parameters in scope.
-pub fn conv_ty(t: &Type, adts: &dyn Fn(&str) -> bool, generics: &BTreeSet<String>, self_ty: Option<&str>) -> R<Ty> {
+pub fn conv_ty(t: &Type, adts: &dyn Fn(&str) -> Option<Ty>, generics: &BTreeSet<String>, self_ty: Option<&str>) -> R<Ty> {
     match t {
         Type::Reference(r) => {
             if r.mutability.is_some() {
@@ -118,6 +159,7 @@ pub fn conv_ty(t: &Type, adts: &dyn Fn(&str) -> bool, generics: &BTreeSet<String
             }
             conv_ty(&r.elem, adts, generics, self_ty)
         }
+        Type::Slice(sl) => Ok(Ty::Slice(Box::new(conv_ty(&sl.elem, adts, generics, self_ty)?))),
         Type::Paren(p) => conv_ty(&p.elem, adts, generics, self_ty),
         Type::Group(p) => conv_ty(&p.elem, adts, generics, self_ty),
         Type::Tuple(tt) => {
@@ -158,21 +200,38 @@ pub fn conv_ty(t: &Type, adts: &dyn Fn(&str) -> bool, generics: &BTreeSet<String
             if !matches!(seg.arguments, PathArguments::None) {
                 // a configured monomorphic instance of a generic struct (`MajorMinor<i32>`)
                 let full: String = quote::ToTokens::to_token_stream(seg).to_string().chars().filter(|c| !c.is_whitespace()).collect();
-                if adts(&full) {
-                    return Ok(Ty::Adt(full));
+                if let Some(t) = adts(&full) {
+                    return Ok(t);
+                }
+            }
+            if p.path.segments.len() >= 2 && matches!(seg.arguments, PathArguments::None) {
+                // `rectangle::Points`: a module-qualified key
+                let q = format!("{}.{}", p.path.segments[p.path.segments.len() - 2].ident, name);
+                if let Some(t) = adts(&q) {
+                    return Ok(t);
                 }
             }
             match name.as_str() {
                 "bool" => Ok(Ty::Bool),
                 "Self" => match self_ty {
-                    Some(s) => Ok(Ty::Adt(s.to_string())),
+                    Some(s) => Ok(adts(s).unwrap_or_else(|| Ty::Adt(s.to_string()))),
                     None => Err(unsupported(t, "`Self` outside an impl")),
                 },
                 "Option" => Ok(Ty::Option(Box::new(arg1(seg)?))),
+                "Result" => {
+                    if let PathArguments::AngleBracketed(a) = &seg.arguments {
+                        if a.args.len() == 2 {
+                            if let (GenericArgument::Type(x), GenericArgument::Type(y)) = (&a.args[0], &a.args[1]) {
+                                return Ok(Ty::Result(Box::new(conv_ty(x, adts, generics, self_ty)?), Box::new(conv_ty(y, adts, generics, self_ty)?)));
+                            }
+                        }
+                    }
+                    Err(unsupported(t, "generic arguments of `Result`"))
+                }
                 "Range" => Ok(Ty::Range(Box::new(arg1(seg)?))),
                 "RangeInclusive" => Ok(Ty::RangeIncl(Box::new(arg1(seg)?))),
                 n if p.path.segments.len() == 1 && generics.contains(n) => Ok(Ty::Param(name)),
-                n if adts(n) => Ok(if adts(&format!("extern:{}", n)) { Ty::Extern(name) } else { Ty::Adt(name) }),
+                n if adts(n).is_some() => Ok(adts(n).unwrap()),
                 _ => Err(unsupported(t, &format!("type `{}` (not an integer/bool/Option/tuple/range and not in the configured struct/enum table)", name))),
             }
         }
@@ -190,6 +249,25 @@ pub struct Eff {
 struct EffVisitor<'m> {
     eff: Eff,
     mut_methods: &'m BTreeSet<String>,
+    fuel_names: &'m BTreeSet<String>,
+    mutarg_names: &'m BTreeSet<String>,
+}
+
+impl<'m> EffVisitor<'m> {
+    /// a call of a function (by name) that has `&mut` parameters: every argument that is a place may be written
+    fn mutargs<'x>(&mut self, name: &str, args: impl Iterator<Item = &'x Expr>) {
+        if self.mutarg_names.contains(name) {
+            for a in args {
+                let mut x = a;
+                while let Expr::Reference(r) = x {
+                    x = &r.expr;
+                }
+                if let Some(r) = place_root(x) {
+                    self.eff.assigned.insert(r);
+                }
+            }
+        }
+    }
 }
 
 pub fn place_root(e: &Expr) -> Option<String> {
@@ -239,12 +317,56 @@ impl<'ast, 'm> Visit<'ast> for EffVisitor<'m> {
         visit::visit_expr_binary(self, i);
     }
     fn visit_expr_method_call(&mut self, i: &'ast ExprMethodCall) {
-        if self.mut_methods.contains(&i.method.to_string()) {
+        let n = i.method.to_string();
+        if self.mut_methods.contains(&n) || (n == "next" && i.args.is_empty()) || n == "get_mut" {
             if let Some(r) = place_root(&i.receiver) {
                 self.eff.assigned.insert(r);
             }
         }
+        if self.fuel_names.contains(&n) {
+            self.eff.ret = true;
+        }
+        self.mutargs(&n, i.args.iter());
         visit::visit_expr_method_call(self, i);
+    }
+    fn visit_expr_call(&mut self, i: &'ast ExprCall) {
+        if let Expr::Path(p) = &*i.func {
+            if let Some(s) = p.path.segments.last() {
+                let n = s.ident.to_string();
+                let segs: Vec<String> = p.path.segments.iter().map(|x| x.ident.to_string()).collect();
+                let hit = if segs.len() >= 2 && segs[segs.len() - 2] != "Self" {
+                    // `Type::name`: only a fuelled function of that type
+                    self.fuel_names.contains(&format!("{}::{}", segs[segs.len() - 2], n))
+                } else {
+                    self.fuel_names.contains(&n)
+                };
+                if hit {
+                    self.eff.ret = true;
+                }
+                self.mutargs(&n, i.args.iter());
+            }
+        }
+        visit::visit_expr_call(self, i);
+    }
+    fn visit_expr_reference(&mut self, i: &'ast ExprReference) {
+        if i.mutability.is_some() {
+            self.eff.assigned.insert(place_root(&i.expr).unwrap_or_else(|| "<complex place>".into()));
+        }
+        visit::visit_expr_reference(self, i);
+    }
+    fn visit_expr_loop(&mut self, i: &'ast ExprLoop) {
+        self.eff.ret = true;
+        visit::visit_expr_loop(self, i);
+    }
+    fn visit_expr_while(&mut self, i: &'ast ExprWhile) {
+        self.eff.ret = true;
+        visit::visit_expr_while(self, i);
+    }
+    fn visit_expr_break(&mut self, _i: &'ast ExprBreak) {
+        self.eff.ret = true;
+    }
+    fn visit_expr_continue(&mut self, _i: &'ast ExprContinue) {
+        self.eff.ret = true;
     }
     fn visit_expr_closure(&mut self, _i: &'ast ExprClosure) {}
     fn visit_item(&mut self, _i: &'ast Item) {}
@@ -259,7 +381,7 @@ pub enum Body<'b> {
 impl<'a> Tr<'a> {
     pub fn ty(&self, t: &Type) -> R<Ty> {
         let tabs = self.t;
-        let r = conv_ty(t, &|n| tabs.adts.contains_key(n) || tabs.externs.contains_key(n.strip_prefix("extern:").unwrap_or(n)), &self.generic_tys, self.self_ty.as_deref())?;
+        let r = conv_ty(t, &|n| tabs.resolve_name(n, &self.cur_file, self.self_ty.as_deref()), &self.generic_tys, self.self_ty.as_deref())?;
         Ok(subst_ty(&r, &self.subst))
     }
 
@@ -271,12 +393,12 @@ impl<'a> Tr<'a> {
     }
 
     pub fn effects_expr(&self, e: &Expr) -> Eff {
-        let mut v = EffVisitor { eff: Eff::default(), mut_methods: &self.mut_methods };
+        let mut v = EffVisitor { eff: Eff::default(), mut_methods: &self.mut_methods, fuel_names: &self.fuel_names, mutarg_names: &self.mutarg_names };
         v.visit_expr(e);
         v.eff
     }
     pub fn effects_stmts(&self, s: &[Stmt]) -> Eff {
-        let mut v = EffVisitor { eff: Eff::default(), mut_methods: &self.mut_methods };
+        let mut v = EffVisitor { eff: Eff::default(), mut_methods: &self.mut_methods, fuel_names: &self.fuel_names, mutarg_names: &self.mutarg_names };
         for x in s {
             v.visit_stmt(x);
         }
@@ -311,7 +433,7 @@ impl<'a> Tr<'a> {
                     return Ok("None".into());
                 }
                 let c = self.fresh(&n);
-                env.push(&n, Var { coq: c.clone(), ty: ty.clone() });
+                env.push(&n, var(c.clone(), ty.clone()));
                 Ok(c)
             }
             Pat::Tuple(t) => {
@@ -346,16 +468,27 @@ impl<'a> Tr<'a> {
                 _ => Err(unsupported(p, "literal pattern that is not an integer or bool")),
             },
             Pat::Or(o) => {
+                // every alternative must bind the same variables; they get the same Coq names
+                let saved = self.counter.clone();
                 let mut parts = vec![];
-                let mut envs: Vec<Env> = vec![];
+                let mut first: Option<Env> = None;
                 for c in o.cases.iter() {
+                    self.counter = saved.clone();
                     let mut e2 = env.clone();
                     parts.push(self.bind_pat(c, ty, &mut e2)?);
-                    envs.push(e2);
+                    match &first {
+                        None => first = Some(e2),
+                        Some(f) => {
+                            let a: Vec<(&String, &String)> = f.vars.iter().map(|(n, v)| (n, &v.coq)).collect();
+                            let b: Vec<(&String, &String)> = e2.vars.iter().map(|(n, v)| (n, &v.coq)).collect();
+                            if a != b {
+                                return Err(unsupported(p, "or-pattern whose alternatives bind different variables"));
+                            }
+                        }
+                    }
                 }
-                if envs.iter().any(|e| e.vars.len() != env.vars.len()) {
-                    return Err(unsupported(p, "or-pattern that binds variables"));
-                }
+                // the counter now reflects one alternative's bindings
+                *env = first.unwrap();
                 Ok(format!("({})", parts.join(" | ")))
             }
             Pat::Path(pp) => self.path_pattern(&pp.path, ty, p),
@@ -410,11 +543,14 @@ impl<'a> Tr<'a> {
         }
     }
 
-    fn resolve_type_name(&self, n: &str) -> String {
+    pub fn resolve_type_name(&self, n: &str) -> String {
         if n == "Self" {
             self.self_ty.clone().unwrap_or_else(|| n.to_string())
         } else {
-            n.to_string()
+            match self.t.resolve_name(n, &self.cur_file, self.self_ty.as_deref()) {
+                Some(Ty::Adt(k)) => k,
+                _ => n.to_string(),
+            }
         }
     }
 
